@@ -78,6 +78,41 @@ def generate(rng, tier):
                 if rng.random() < 0.5:
                     b[rng.randrange(n)] ^= 0x40
                 add(oa, ob, 0x55, a, b, "page-end-grid")
+    # member lookup through the public API (all overloads, with and without the lookup map): keys of every length class with
+    # bytes >= 0x80, looked up exactly, with one byte changed, one byte shorter / longer, and the empty key; the key is handed to
+    # the library as an exact-size block ending at an unmapped page (harness dom-find)
+    lens = [0, 1, 2, 15, 16, 17, 31, 32, 33, 47, 63, 64, 65, 66, 95, 96, 97, 129]
+    for rep in range(6 if quick else 200):
+        keys = []
+        for n in rng.sample(lens, 9) + [0]:
+            k = bytes(rng.choice([0x61, 0x62, 0x7F, 0x80, 0xC3, 0xFF, 0x00, 0x22]) if rng.random() < 0.3 else rng.randrange(256) for _ in range(n))
+            if k not in keys:
+                keys.append(k)
+        alloc = rng.choice(["pool", "simple"])
+        lines = [f"dom-reset {alloc}", "dom-set 0 / obj"]
+        exp = [{"_skip": True}, {"_skip": True}]
+        for i, k in enumerate(keys):
+            lines.append(f"dom-add 0 / {k.hex() or '-'} u{i} 1")
+            exp.append({"_skip": True})
+        if rep % 2:
+            lines.append("dom-createmap 0 /")
+            exp.append({"_skip": True})
+        probes = []
+        for i, k in enumerate(keys):
+            probes.append(k)
+            for pos in {0, len(k) // 2, 31, 32, len(k) - 33, len(k) - 1}:
+                if 0 <= pos < len(k):
+                    probes.append(k[:pos] + bytes([k[pos] ^ rng.choice([1, 0x80, 0xFF])]) + k[pos + 1:])
+            probes.append(k[:-1])
+            probes.append(k + bytes([rng.randrange(256)]))
+        for pk in probes:
+            idx = keys.index(pk) if pk in keys else None
+            lines.append(f"dom-find 0 / {pk.hex() or '-'}")
+            exp.append({"sv": str(idx) if idx is not None else "none", "pl": str(idx) if idx is not None else "none",
+                        "has": "1" if idx is not None else "0", "at": f"u{idx}" if idx is not None else "n"})
+        lines.append("dom-end")
+        exp.append({"ok": True, "ledger": "ok"})
+        cases.append({"lines": lines, "exp": exp, "cls": "member-lookup/" + ("map" if rep % 2 else "linear"), "nontrivial": True})
     return cases
 
 
@@ -91,6 +126,9 @@ def _kv(line):
 
 
 def judge(case, mo, io, cfg):
+    if "exp" in case:
+        from props import c12
+        return c12.judge_lines(case, mo, io, cfg)
     t = case["lines"][0].split()
     a = bytes.fromhex(t[4]) if t[4] != "-" else b""
     b = bytes.fromhex(t[5]) if t[5] != "-" else b""
